@@ -58,12 +58,21 @@ func (vfFileInfo) ModTime() time.Time { return time.Time{} }
 func (vfFileInfo) IsDir() bool        { return false }
 func (vfFileInfo) Sys() any           { return nil }
 
+// which caller is looking, and what it saw (no scheduling point lies between a caller setting vfCaller and
+// the os.Stat at the top of downloadBlob)
+var (
+	vfCaller  int
+	vfStatSaw [4]bool
+)
+
 func vfStat(name string) (os.FileInfo, error) {
 	for _, d := range vfDL {
 		if name == "/models/blobs/"+d && vfPresent[d] {
+			vfStatSaw[vfCaller] = true
 			return vfFileInfo{}, nil
 		}
 	}
+	vfStatSaw[vfCaller] = false
 	return nil, os.ErrNotExist
 }
 
@@ -159,7 +168,11 @@ func VerifC15DownloadConcurrent(n int) {
 	done := make(chan bool, n)
 	for i := 0; i < n; i++ {
 		go func() {
-			_, err := downloadBlob(context.Background(), downloadOpts{mp: ModelPath{Namespace: "library", Repository: "m"}, digest: vfDL[0], regOpts: &registryOptions{}, fn: func(api.ProgressResponse) {}})
+			vfCaller = i
+			hit, err := downloadBlob(context.Background(), downloadOpts{mp: ModelPath{Namespace: "library", Repository: "m"}, digest: vfDL[0], regOpts: &registryOptions{}, fn: func(api.ProgressResponse) {}})
+			// "cache hit" tells PullModel that the blob was there (and verified) before this pull: a caller
+			// that waited for a transfer, its own or one it joined, must not get it
+			verifAssert(hit == vfStatSaw[i], "cache-hit-only-if-the-blob-was-there-when-the-call-looked")
 			done <- err == nil
 		}()
 	}
